@@ -199,6 +199,55 @@ def big_memory_probe(chk, w2c2):
             chk.violation('C11:big-memory:value:%s' % tag, 'build %s, line %d: reference "%s" vs compiled "%s"' % (tag, i, ra[:160], rb[:160]), files)
             break
     chk.observe('big_memory_probe', 'ran', 'set')
+    # the largest memory (65536 pages = 2^32 bytes): bulk instructions whose ranges END exactly at 2^32 (address + length wraps in 32 bits),
+    # overlapping and disjoint; AddressSanitizer watches the library calls behind them (memcpy on overlapping ranges is undefined)
+    try:
+        import mmap
+        mmap.mmap(-1, 65536 * 65536).close()
+    except Exception as ex:
+        chk.observe('top_of_memory_probe', 'skipped: %s' % ex, 'set')
+        return
+    m = Module()
+    m.mems.append((65536, 65536, False))
+    m.datas.append(dict(mode='passive', bytes=bytes(range(1, 129))))
+    m.add_func([I32, I32, I32], [], [], [('local.get', 0), ('local.get', 1), ('local.get', 2), ('memory.copy',)], export='copy')
+    m.add_func([I32, I32, I32], [], [], [('local.get', 0), ('local.get', 1), ('local.get', 2), ('memory.fill',)], export='fill')
+    m.add_func([I32, I32, I32], [], [], [('local.get', 0), ('local.get', 1), ('local.get', 2), ('memory.init', 0)], export='init')
+    m.add_func([I32], [I64], [], [('local.get', 0), ('i64.load', 0, 0)], export='ld')
+    b = m.encode()
+    plan = e2e.Plan(m)
+    T = 0x100000000
+    lines = ['I 0', 'c 0 %d %s 0x0 0x80' % (plan.fk('init'), hex(T - 0x100)), 'c 0 %d %s 0x0 0x80' % (plan.fk('init'), hex(T - 0x80)),
+             'c 0 %d %s %s 0x80' % (plan.fk('copy'), hex(T - 0x80), hex(T - 0xc0)), 'c 0 %d %s %s 0x80' % (plan.fk('copy'), hex(T - 0xc0), hex(T - 0x80)),
+             'c 0 %d %s %s 0x40' % (plan.fk('copy'), hex(T - 0x40), hex(T - 0x100)), 'c 0 %d %s %s 0x1' % (plan.fk('copy'), hex(T - 1), hex(T - 2)),
+             'c 0 %d %s 0x5a 0x30' % (plan.fk('fill'), hex(T - 0x30)), 'c 0 %d %s %s 0x0' % (plan.fk('copy'), hex(T - 1), hex(T - 1)),
+             'c 0 %d 0x10 %s 0x20' % (plan.fk('copy'), hex(T - 0x20))] + ['c 0 %d %s' % (plan.fk('ld'), hex(a)) for a in (T - 8, T - 0x40, T - 0x80, T - 0xc0, T - 0x100, 0x10, 0x28)]
+    script = '\n'.join(lines) + '\n'
+    d = env.subdir('c11-topmem')
+    st, ref, _ = e2e.run_ref(b, plan, script, d)
+    if st != 'ok':
+        chk.observe('top_of_memory_probe', 'skipped: reference could not run it (%s)' % st, 'set')
+        return
+    files = {'module.wasm': b, 'script.txt': script}
+    from vlib import san
+    for tag, cc, cflags in (('gcc-O1-asan', 'gcc', ['-O1', '-g', '-fsanitize=address,undefined', '-fno-sanitize-recover=all']), ('clang-O2', 'clang', ['-O2'])):
+        st2, out, r = e2e.build_and_run(w2c2, b, plan, script, os.path.join(d, tag), cc=cc, cflags=cflags)
+        chk.ev(len(lines))
+        chk.distinct(('topmem', tag))
+        if st2 != 'ok':
+            reps = san.parse(str(out))
+            if reps:
+                chk.violation('C11:top-of-memory:%s' % reps[0][0], 'bulk instruction ending at 2^32 on a 65536-page memory (%s): %s' % (tag, reps[0][1]), files)
+            elif st2 == 'run' and ('alloc' in str(out).lower() or 'out of memory' in str(out).lower()):
+                chk.observe('top_of_memory_probe', 'skipped: host could not allocate', 'set')
+                return
+            else:
+                chk.violation('C11:top-of-memory:%s:%s' % (st2, tag), 'bulk instructions ending at 2^32 on a 65536-page memory fail at %s (%s): %s' % (st2, tag, str(out)[-600:]), files)
+            continue
+        for step, kind, ra, rb, i in diff.compare(ref, out, {}):
+            chk.violation('C11:top-of-memory:value:%s' % tag, 'build %s, line %d: reference "%s" vs compiled "%s"' % (tag, i, ra[:160], rb[:160]), files)
+            break
+    chk.observe('top_of_memory_probe', 'ran', 'set')
 
 
 def main(chk):
